@@ -6,5 +6,6 @@ def regen_all():
     out = {}
     gen = os.path.join(vlib.COQ, "Gen")
     os.makedirs(gen, exist_ok=True)
+    out["go2v"] = vlib.run_tool("go2v", ["-repo", vlib.REPO, "-out", gen])
     out["lifecycle"] = vlib.run_tool("extract", ["-repo", vlib.REPO, "-out", gen, "-what", "lifecycle"])
     return out
